@@ -1,10 +1,16 @@
 From Coq Require Import Extraction ExtrOcamlBasic.
-From RV Require Import Base.Bytes Base.SortedMap Btree.Tree Btree.Read Btree.Inst.
+From RV Require Import Base.Bytes Base.SortedMap Btree.Tree Btree.Read Btree.Inst Btree.Mutator Btree.Shape Btree.ShapeInst.
 Extraction Language OCaml.
 Extraction "../ocaml/gen/c04_model.ml"
   SortedMap.get SortedMap.insert SortedMap.remove SortedMap.range SortedMap.bounds_empty
   SortedMap.iter_next SortedMap.iter_next_back SortedMap.first SortedMap.last
   SortedMap.pop_first SortedMap.pop_last SortedMap.len SortedMap.retain SortedMap.retain_in
   SortedMap.ext_begin SortedMap.ext_next SortedMap.ext_next_back SortedMap.ext_finish SortedMap.sortedb
-  Inst.key_cmp Inst.pred_mod Inst.key_of_u64_bytes Inst.key_size
-  Bytes.le_decode Bytes.le_encode.
+  Inst.key_cmp Inst.pred_mod Inst.key_of_u64_bytes Inst.key_size Inst.val_size
+  Bytes.le_decode Bytes.le_encode
+  Shape.erase_tree Shape.s_commit Shape.s_insert Shape.s_delete Shape.s_pop_first Shape.s_pop_last
+  Shape.s_insert_tag Shape.s_delete_tag_list
+  Shape.s_oracle Shape.sempty Shape.order_for Shape.alloc_for
+  ShapeInst.key_sep_left ShapeInst.key_sep_bytes ShapeInst.key_sep_str
+  ShapeInst.m_insert ShapeInst.m_delete ShapeInst.m_tree_checkb
+  Mutator.leaf_required Mutator.leaf_bytes Mutator.branch_required.
